@@ -26,6 +26,7 @@ WITH THE SOFTWARE OR THE USE OR OTHER DEALINGS IN THE SOFTWARE.
 
 #include "CoreSMTSolver.h"
 #include <common/VerifTrace.h>
+#include <common/VerifSearch.h>
 #include "ResolutionProof.h"
 
 #include <tsolvers/TSolver.h>
@@ -374,6 +375,7 @@ TPropRes CoreSMTSolver::checkTheory(bool complete, int& conflictC)
     else if (res == TRes::UNSAT) {
         conflicts++;
         conflictC++;
+        VERIF_SEARCH("sc %p", static_cast<void const *>(this));
         return handleUnsat();
     }
     assert(res == TRes::UNKNOWN);
